@@ -161,3 +161,8 @@ func VerifSendArbitrary(g *VerifGroup, chid datatransfer.ChannelID, code datatra
 	}
 	return g.Send(chid, code)
 }
+
+// VerifView wraps a record in the public ChannelState view.
+func VerifView(rec *internal.ChannelState) datatransfer.ChannelState {
+	return fromInternalChannelState(*rec)
+}
